@@ -105,7 +105,7 @@ PROPERTIES["C16"] = {
                                "c16_bytes_5_5_1", "c16_bytes_6_7_0", "c16_bytes_7_8_2", "c16_bytes_8_4_1", "c16_bytes_9_6_0"])
     ] + [MH("c16_meta_%d" % t, tier=("quick" if t <= 40 else "thorough"), timeout=(1800 if t <= 40 else 7200),
             inputs="lead + %d symbolic bytes parsed by the real parser" % t, bounds="offsets of PARSED metadata vs the positions where the parser found the segments",
-            covers_unsat_ok=["signature header with padding", "metadata rejected"]) for t in (32, 40, 48, 49, 56)]
+            covers_unsat_ok=["signature header with padding", "metadata rejected"]) for t in (32, 40)]
     + [MH("c16_clear_%d_%d" % s, inputs="signature header with %d entries / %d symbolic store bytes" % s, bounds="Header::clear() then offsets vs written bytes", timeout=300)
        for s in ((1, 4), (2, 9), (0, 0), (1, 16))]
     + [MH("c16_woff_k%d" % k, inputs="package with 2-entry signature header (3 padding bytes), 1-entry main header, 3 payload bytes, contents symbolic", timeout=600,
@@ -166,9 +166,9 @@ PROPERTIES["C14"] = {
     + [MH("c14_meta_%d" % t, tier=("quick" if t <= 40 else "thorough"), timeout=(1800 if t <= 40 else 7200),
             inputs="lead + %d symbolic bytes; source hands out 1, 3 or 7 bytes per read/fill_buf; truncation at each of the last 24 offsets before the payload" % t,
             bounds="read side: PackageMetadata::parse from chunking / truncated sources, %d bytes after the lead" % t,
-            covers_unsat_ok=["signature header with padding", "metadata rejected"]) for t in (32, 40, 48, 49, 56)],
+            covers_unsat_ok=["signature header with padding", "metadata rejected"]) for t in (32, 40)],
     "bounds": "headers of one entry, stores <= 8 bytes, payload 3 bytes; chunk sizes K in {1,2,3,4,5,whole}; failure at any call number (with K=1: at any byte offset); at most one Interrupted at any call number",
-    "outside": "larger packages; chunkings that vary from call to call (the 'seeded random sizes' family); more than one Interrupted; sinks violating the Write contract; read side: metadata of up to 56 bytes after the lead (c14_meta_*, MIR engine), sources with a fixed chunk size 1/3/7, truncation at the last 24 offsets before the payload",
+    "outside": "larger packages; chunkings that vary from call to call (the 'seeded random sizes' family); more than one Interrupted; sinks violating the Write contract; read side: metadata of up to 40 bytes after the lead (c14_meta_*, MIR engine), sources with a fixed chunk size 1/3/7, truncation at the last 24 offsets before the payload",
     "assumptions": A_COMMON + [A_FORGET, A_SHAPES, A_S9, "read side on the MIR engine: reader model = std::io::Read/BufRead contract (read_exact all-or-error, fill_buf returns at most the chunk, consume skips only buffered bytes)"] + A_MIR[:2],
 }
 
@@ -203,7 +203,7 @@ PROPERTIES["C01"] = {
           covers_unsat_ok=["accepted with an entry", "header rejected"]) for r in (0, 16, 17)]
     + [MH("c01_meta_%d" % t, tier=("quick" if t <= 40 else "thorough"), timeout=(1800 if t <= 40 else 7200),
           inputs="lead + %d symbolic bytes: signature header, padding, main header (all counts symbolic)" % t,
-          bounds="PackageMetadata::parse then write over %d bytes after the lead" % t, covers_unsat_ok=["signature header with padding", "metadata rejected"]) for t in (32, 40, 48, 49, 56)]
+          bounds="PackageMetadata::parse then write over %d bytes after the lead" % t, covers_unsat_ok=["signature header with padding", "metadata rejected"]) for t in (32, 40)]
     + [MH("c01_meta_lead_32", inputs="92 symbolic lead bytes + 32 symbolic bytes", bounds="arbitrary lead fields", timeout=1800, covers_unsat_ok=["signature header with padding", "metadata rejected"])]
     + [MH("c01_hdr_bin_18_0", inputs="as c01_hdr_18_0, store bytes 0..255", bounds="non-UTF-8 store data for the non-string types", timeout=900,
           covers_unsat_ok=["accepted with an entry", "header rejected"])]
@@ -234,7 +234,7 @@ PROPERTIES["C04"] = {
           covers_unsat_ok=["accepted with an entry", "header rejected"]) for r in (0, 16, 17)]
     + [MH("c04_meta_%d" % t, tier=("quick" if t <= 40 else "thorough"), timeout=(1800 if t <= 40 else 7200),
           inputs="lead + %d symbolic bytes (signature header, padding, main header, trailing bytes)" % t, bounds="PackageMetadata::parse over %d bytes after the lead" % t,
-          covers_unsat_ok=["signature header with padding", "metadata rejected"]) for t in (32, 40, 48, 49, 56)]
+          covers_unsat_ok=["signature header with padding", "metadata rejected"]) for t in (32, 40)]
     + [MH("c04_cpio_%s_%d_%d" % (m, t, n), inputs="cpio entry header: %s magic, 13 symbolic hex fields, %d symbolic name/padding bytes, %d files in the header" % (m, t, n),
           bounds="payload::Reader::new on one hostile entry header", timeout=900, tier=("quick" if (t, n) in ((2, 0), (12, 1)) or m == "stripped" else "thorough"),
           covers_unsat_ok=["entry accepted", "entry rejected"]) for m in ("newc", "crc", "stripped", "anymagic") for (t, n) in ((0, 0), (2, 0), (4, 1), (12, 1))]
